@@ -9,6 +9,7 @@ pub fn run(kind: &str, i: &Input) -> String {
         "vm_op" => vm_op(i),
         "asm_bytes" => asm_bytes(i),
         "vm_prog" => vm_prog(i),
+        "vm_compute" => vm_compute(i),
         "types_convert" => types_convert(i),
         "hash_addrs" => hash_addrs(i),
         "lock_stress" => lock_stress(i),
@@ -635,4 +636,56 @@ fn types_convert(i: &Input) -> String {
     let ca = ContentAddress::from(w4);
     chk(ca.0 == b32 && <[i64; 4]>::from(ca.clone()) == w4 && <[u8; 32]>::from(ca) == b32, "ContentAddress conversions");
     format!("result=ok\nall_ok={ok}\nfailed={why}\n")
+}
+
+/// Compute at index 1 of `ops` (index 0 is never executed): the real run from pc = 1 vs a sequential reference that runs
+/// every child separately through the real Vm::exec from the documented initial state, applies the documented join and
+/// then lets the real VM continue from the joined state.
+fn vm_compute(i: &Input) -> String {
+    let ops = parse_ops(get(i, "ops"));
+    let cost_v: u64 = get(i, "cost").parse().unwrap_or(1);
+    let cost = move |_: &Op| cost_v;
+    let limit = GasLimit { per_yield: GasLimit::DEFAULT_PER_YIELD, total: get(i, "limit").parse().unwrap_or(u64::MAX) };
+    let stack0 = words(get(i, "stack"));          // includes the breadth on top
+    let mem0 = words(get(i, "memory"));
+    let mk = |pc: usize, st: Vec<i64>, mem: Vec<i64>| { let mut vm = Vm::default(); vm.pc = pc;
+        vm.stack = Stack::try_from(st).expect("REPLAY-HARNESS: stack"); vm.memory = Memory::try_from(mem).expect("REPLAY-HARNESS: memory"); vm };
+    // real
+    let mut real = mk(1, stack0.clone(), mem0.clone());
+    let r_real = real.exec_ops(&ops, test_access(), &NoState, &cost, limit);
+    let real_s = match &r_real { Ok(g) => format!("ok gas={g} pc={} stack={} memory={}", real.pc, fmt_words(&real.stack), fmt_words(&real.memory)),
+                                 Err(_) => "err".to_string() };
+    // reference
+    let reference = (|| -> Result<String, String> {
+        let mut st = stack0.clone();
+        let breadth = st.pop().ok_or("no breadth")?;
+        if breadth < 1 { return Err("breadth < 1".into()); }
+        let cost_com = cost_v;
+        if cost_com > limit.total { return Err("out of gas at Compute".into()); }
+        let mut gas = cost_com;
+        let mut mem = mem0.clone();
+        let mut pc = 1usize;
+        let mut halt = false;
+        for k in 0..breadth {
+            let mut c = mk(2, { let mut s = st.clone(); s.push(k); s }, vec![]);
+            c.parent_memory = vec![Arc::new(Memory::try_from(mem0.clone()).unwrap())];
+            let g = c.exec_ops(&ops, test_access(), &NoState, &cost, limit).map_err(|e| format!("child {k}: {e}"))?;
+            gas = gas.checked_add(g).ok_or("gas overflow")?;
+            mem.extend(Vec::<i64>::from(c.memory.clone()));
+            pc = pc.max(c.pc);
+            halt |= c.halt;
+        }
+        if gas > limit.total { return Err("out of gas after join".into()); }
+        if mem.len() > Memory::SIZE_LIMIT { return Err("memory limit".into()); }
+        let mut vm = mk(pc, st, mem);
+        if !halt {
+            // continue after the join with the remaining budget
+            let rest = GasLimit { per_yield: limit.per_yield, total: limit.total - gas };
+            let g2 = vm.exec_ops(&ops, test_access(), &NoState, &cost, rest).map_err(|e| format!("tail: {e}"))?;
+            gas += g2;
+        }
+        Ok(format!("ok gas={gas} pc={} stack={} memory={}", vm.pc, fmt_words(&vm.stack), fmt_words(&vm.memory)))
+    })();
+    let ref_s = match reference { Ok(s) => s, Err(_) => "err".to_string() };
+    format!("result=ok\nreal={real_s}\nreference={ref_s}\n")
 }
